@@ -3,6 +3,8 @@ package main
 // C09 — encoding is lossless.  Every op encodes a value with the real Encode, decodes the bytes
 // with the real Decode, encodes the original a second time, and prints
 //   <hex bytes> [<original observable fields>] <ok|E> <decoded observable fields> <second encoding identical T/F>
+//   [<queries answered identically by original and decoded value: T | F:<which>>]   (loops, polygons)
+// An Encode error is the single token ENCERR (the property speaks about values the encoder accepts).
 // Floats travel as bit patterns.  Value syntax:
 //   point  x,y,z            pts   - | p;p;…           rect a,b,c,d
 //   loop   oi/depth/rect/pts                     (rect may be "-" when the model has none)
@@ -216,7 +218,11 @@ func init() {
 		if err == nil {
 			dec = loopTok(&q)
 		}
-		return []string{hexTok(b.Bytes()), loopTok(l), errTok(err), dec, bs(bytes.Equal(b.Bytes(), b2.Bytes()))}
+		qs := "-"
+		if err == nil {
+			qs = loopQueriesSame(l, &q)
+		}
+		return []string{hexTok(b.Bytes()), loopTok(l), errTok(err), dec, bs(bytes.Equal(b.Bytes(), b2.Bytes())), qs}
 	}
 	replayers["encloop"] = func(a []string) []string { return loopRT(s2.LoopFromPoints(pPts(a[0]))) }
 	replayers["encloopof"] = func(a []string) []string {
@@ -236,7 +242,11 @@ func init() {
 		if err == nil {
 			dec = polyTok(&q)
 		}
-		return []string{hexTok(b.Bytes()), polyTok(p), errTok(err), dec, bs(bytes.Equal(b.Bytes(), b2.Bytes()))}
+		qs := "-"
+		if err == nil {
+			qs = polyQueriesSame(p, &q)
+		}
+		return []string{hexTok(b.Bytes()), polyTok(p), errTok(err), dec, bs(bytes.Equal(b.Bytes(), b2.Bytes())), qs}
 	}
 	// ---- primitives
 	replayers["uvar"] = func(a []string) []string {
@@ -305,6 +315,121 @@ func init() {
 		return []string{hexTok(b), errTok(derr), is(rem), ptsTok(q)}
 	}
 	generators["c09"] = genC09
+}
+
+
+// ---------------------------------------------------------------- query comparison
+
+// queryPoints: axis points, every vertex, edge midpoints, slightly displaced vertices, vertex sums.
+func queryPoints(loops [][]s2.Point) []s2.Point {
+	pts := []s2.Point{
+		{Vector: r3.Vector{X: 1}}, {Vector: r3.Vector{X: -1}}, {Vector: r3.Vector{Y: 1}},
+		{Vector: r3.Vector{Y: -1}}, {Vector: r3.Vector{Z: 1}}, {Vector: r3.Vector{Z: -1}},
+		s2.OriginPoint(),
+	}
+	for _, vs := range loops {
+		var sum r3.Vector
+		for i, v := range vs {
+			sum = sum.Add(v.Vector)
+			if i >= 40 {
+				continue
+			}
+			pts = append(pts, v)
+			w := vs[(i+1)%len(vs)]
+			if m := v.Vector.Add(w.Vector); m.Norm2() > 0 {
+				pts = append(pts, s2.Point{Vector: m.Normalize()})
+			}
+			o := v.Vector.Ortho()
+			pts = append(pts, s2.Point{Vector: v.Vector.Add(o.Mul(1e-9)).Normalize()})
+			pts = append(pts, s2.Point{Vector: v.Vector.Sub(o.Mul(1e-9)).Normalize()})
+		}
+		if sum.Norm2() > 0 {
+			pts = append(pts, s2.Point{Vector: sum.Normalize()}, s2.Point{Vector: sum.Mul(-1).Normalize()})
+		}
+	}
+	return pts
+}
+
+func sameBits(a, b s2.Point) bool {
+	return math.Float64bits(a.X) == math.Float64bits(b.X) && math.Float64bits(a.Y) == math.Float64bits(b.Y) &&
+		math.Float64bits(a.Z) == math.Float64bits(b.Z)
+}
+
+func shapeSame(a, b s2.Shape) string {
+	if a.NumEdges() != b.NumEdges() {
+		return "F:NumEdges"
+	}
+	for i := 0; i < a.NumEdges(); i++ {
+		ea, eb := a.Edge(i), b.Edge(i)
+		if !sameBits(ea.V0, eb.V0) || !sameBits(ea.V1, eb.V1) {
+			return "F:Edge"
+		}
+	}
+	if a.NumChains() != b.NumChains() {
+		return "F:NumChains"
+	}
+	for i := 0; i < a.NumChains(); i++ {
+		if a.Chain(i) != b.Chain(i) {
+			return "F:Chain"
+		}
+	}
+	if a.ReferencePoint().Contained != b.ReferencePoint().Contained || !sameBits(a.ReferencePoint().Point, b.ReferencePoint().Point) {
+		return "F:ReferencePoint"
+	}
+	if a.IsEmpty() != b.IsEmpty() || a.IsFull() != b.IsFull() || a.Dimension() != b.Dimension() {
+		return "F:EmptyFull"
+	}
+	return "T"
+}
+
+func loopQueriesSame(l, m *s2.Loop) string {
+	if r := shapeSame(l, m); r != "T" {
+		return r
+	}
+	if l.IsHole() != m.IsHole() || l.Sign() != m.Sign() || l.ContainsOrigin() != m.ContainsOrigin() {
+		return "F:HoleSign"
+	}
+	if math.Float64bits(l.Area()) != math.Float64bits(m.Area()) {
+		return "F:Area"
+	}
+	for _, x := range queryPoints([][]s2.Point{l.Vertices()}) {
+		if l.ContainsPoint(x) != m.ContainsPoint(x) {
+			return "F:ContainsPoint"
+		}
+	}
+	return "T"
+}
+
+func polyQueriesSame(p, q *s2.Polygon) string {
+	if p.NumLoops() != q.NumLoops() {
+		return "F:NumLoops"
+	}
+	if r := shapeSame(p, q); r != "T" {
+		return r
+	}
+	var loops [][]s2.Point
+	for i, l := range p.Loops() {
+		m := q.Loop(i)
+		pa, pok := p.Parent(i)
+		qa, qok := q.Parent(i)
+		if l.IsHole() != m.IsHole() || l.Sign() != m.Sign() || l.ContainsOrigin() != m.ContainsOrigin() ||
+			pa != qa || pok != qok || p.LastDescendant(i) != q.LastDescendant(i) {
+			return "F:LoopStructure"
+		}
+		loops = append(loops, l.Vertices())
+	}
+	if s2.VerifPolygonNumVertices(p) != s2.VerifPolygonNumVertices(q) || p.IsEmpty() != q.IsEmpty() || p.IsFull() != q.IsFull() {
+		return "F:Counts"
+	}
+	if math.Float64bits(p.Area()) != math.Float64bits(q.Area()) {
+		return "F:Area"
+	}
+	for _, x := range queryPoints(loops) {
+		if p.ContainsPoint(x) != q.ContainsPoint(x) {
+			return "F:ContainsPoint"
+		}
+	}
+	return "T"
 }
 
 // ---------------------------------------------------------------- generators
@@ -506,6 +631,12 @@ func genC09(g *G) {
 	oct := []s2.Point{s2.PointFromCoords(1, 0, 0), s2.PointFromCoords(0, 1, 0), s2.PointFromCoords(0, 0, 1)}
 	g.emit("encpolygon", ptsTok(oct))
 	g.emit("encloop", ptsTok(oct))
+	// the same triangle with the zero signs of the true face centres, and with mixed signs
+	nz := math.Copysign(0, -1)
+	raw := func(x, y, z float64) s2.Point { return s2.Point{Vector: r3.Vector{X: x, Y: y, Z: z}} }
+	g.emit("encpolygon", ptsTok([]s2.Point{raw(1, 0, 0), raw(nz, 1, 0), raw(nz, nz, 1)}))
+	g.emit("encpolygon", ptsTok([]s2.Point{raw(1, nz, 0), raw(nz, 1, nz), raw(0, nz, 1)}))
+	g.emit("ptsc", "0", ptsTok([]s2.Point{raw(1, 0, 0), raw(1, nz, 0), raw(0, 1, 0), raw(nz, 1, 0), raw(nz, nz, 1), raw(0, 0, -1), raw(nz, 0, -1)}))
 	g.emit("encloop", ptTok(s2.PointFromCoords(0, 0, 1)))  // empty loop
 	g.emit("encloop", ptTok(s2.PointFromCoords(0, 0, -1))) // full loop
 	g.emit("enccu", "-")
